@@ -351,3 +351,102 @@ canary('c02-binary-prealloc', 'C02', DEC, """    let (input, data) = take(len as
     let (input, data) = take(len as usize)(input)?;
     v.extend_from_slice(data);
     Ok((input, OwnedTerm::Binary(v)))""", 'ALLOC:')
+
+# ---- C03 ----
+canary('c03-drop-v4-port', 'C03', DEC, "        V4_PORT_EXT => parse_v4_port(input, cache),\n", "", 'missing:120')
+canary('c03-pid-ext-creation-width', 'C03', DEC, """    let (input, id) = be_u32(input)?;
+    let (input, serial) = be_u32(input)?;
+    let (input, creation) = be_u8(input)?;
+    Ok((
+        input,
+        OwnedTerm::Pid(ExternalPid::new(node, id, serial, creation as u32)),""", """    let (input, id) = be_u32(input)?;
+    let (input, serial) = be_u32(input)?;
+    let (input, creation) = be_u32(input)?;
+    Ok((
+        input,
+        OwnedTerm::Pid(ExternalPid::new(node, id, serial, creation)),""", 'WIRE:')
+canary('c03-no-trailing-check', 'C03', DEC, """        let (new_remaining, payload) = parse_term(remaining, cache).map_err(from_nom_error)?;
+        if !new_remaining.is_empty() {
+            return Err(DecodeError::TrailingData(new_remaining.len()));
+        }
+        Ok((term, Some(payload)))""", """        let (_new_remaining, payload) = parse_term(remaining, cache).map_err(from_nom_error)?;
+        Ok((term, Some(payload)))""", 'ok-without-trailing-check')
+canary('c03-latin1-as-utf8', 'C03', DEC, """    // ATOM_EXT / SMALL_ATOM_EXT carry Latin-1: every byte is one code point
+    let name: String = bytes.iter().map(|&b| b as char).collect();
+    Ok((input, OwnedTerm::Atom(Atom::new(name))))
+}
+
+fn parse_atom_utf8""", """    let name = str::from_utf8(bytes)
+        .map_err(|_| nom::Err::Failure(NomError::new(input, ErrorKind::Char)))?;
+    Ok((input, OwnedTerm::Atom(Atom::new(name))))
+}
+
+fn parse_atom_utf8""", 'latin1-as-utf8')
+canary('c03-pid-fields-swapped', 'C03', DEC, """    let (input, id) = be_u32(input)?;
+    let (input, serial) = be_u32(input)?;
+    let (input, creation) = be_u32(input)?;
+
+    // NEW_PID_EXT doesn't need raw bytes preserved""", """    let (input, serial) = be_u32(input)?;
+    let (input, id) = be_u32(input)?;
+    let (input, creation) = be_u32(input)?;
+
+    // NEW_PID_EXT doesn't need raw bytes preserved""", 'field-order')
+canary('c03-newer-ref-creation-u8', 'C03', DEC, """    let (input, creation) = be_u32(input)?;
+
+    let mut remaining = input;
+    let mut ids = Vec::with_capacity(len as usize);
+    for _ in 0..len {
+        let (new_remaining, id) = be_u32(remaining)?;
+        ids.push(id);
+        remaining = new_remaining;
+    }
+
+    Ok((
+        remaining,
+        OwnedTerm::Reference(""", """    let (input, creation) = be_u8(input)?;
+    let creation = creation as u32;
+
+    let mut remaining = input;
+    let mut ids = Vec::with_capacity(len as usize);
+    for _ in 0..len {
+        let (new_remaining, id) = be_u32(remaining)?;
+        ids.push(id);
+        remaining = new_remaining;
+    }
+
+    Ok((
+        remaining,
+        OwnedTerm::Reference(""", 'WIRE:')
+canary('c03-map-count-u16', 'C03', DEC, """fn parse_map<'a>(input: &'a [u8], cache: &AtomCache) -> NomResult<'a, OwnedTerm> {
+    let (input, arity) = be_u32(input)?;""", """fn parse_map<'a>(input: &'a [u8], cache: &AtomCache) -> NomResult<'a, OwnedTerm> {
+    let (input, arity) = be_u16(input)?;""", 'WIRE:')
+canary('c03-bigint-loop-off', 'C03', DEC, """    let (input, sign) = be_u8(input)?;
+    let (input, digits) = take(n as usize)(input)?;
+    Ok((
+        input,
+        OwnedTerm::BigInt(BigInt::new(sign != 0, digits.to_vec())),
+    ))
+}
+
+fn parse_large_big(""", """    let (input, digits) = take(n as usize)(input)?;
+    let (input, sign) = be_u8(input)?;
+    Ok((
+        input,
+        OwnedTerm::BigInt(BigInt::new(sign != 0, digits.to_vec())),
+    ))
+}
+
+fn parse_large_big(""", 'WIRE:')
+canary('c03-constructor-swap', 'C03', 'crates/erltf/src/types.rs', """        ExternalPid {
+            node,
+            id,
+            serial,
+            creation,
+            local_ext_bytes: None,
+        }""", """        ExternalPid {
+            node,
+            id: serial,
+            serial: id,
+            creation,
+            local_ext_bytes: None,
+        }""", 'param-field')
